@@ -83,23 +83,18 @@ def save_replay(prop: str, payload: dict) -> str:
     return str(p)
 
 
-class Timeout(Exception):
-    pass
+Timeout = sym.TaskTimeout
 
 
 def with_alarm(seconds, fn, *a, **kw):
-    import signal
-
-    def h(sig, frm):
-        raise Timeout()
-
-    old = signal.signal(signal.SIGALRM, h)
-    signal.alarm(int(seconds))
+    """Run fn under a cooperative wall-clock deadline (checked before every solver call and every
+    machine step batch).  No signals: raising from a signal handler inside a z3 call corrupts z3's
+    internal state (observed: workers deadlocked on a futex)."""
+    sym.set_deadline(seconds)
     try:
         return fn(*a, **kw)
     finally:
-        signal.alarm(0)
-        signal.signal(signal.SIGALRM, old)
+        sym.set_deadline(None)
 
 
 def compile_and_load(sources, opts, strict=True):
